@@ -86,11 +86,7 @@ impl<'a> TryFrom<&'a str> for MixedTry<'a> {
 pub const N_TYPED: u8 = 8;
 
 fn typed_key(i: u8) -> &'static str {
-    if i >= 7 {
-        "mixed_key.x-1"
-    } else {
-        TYPED_KEYS[i as usize]
-    }
+    TYPED_KEYS[(i as usize).min(7)]
 }
 
 #[derive(Clone, Debug, Serialize, Deserialize, PartialEq, Eq, Hash)]
